@@ -26,14 +26,14 @@ type qstep struct {
 }
 
 type replayStats struct {
-	Behaviours   int   `json:"behaviours"`
-	Steps        int   `json:"steps"`
-	Drift        int   `json:"drift"`
-	Unreproduced int   `json:"unreproduced"` // the pool handed out another node than the one-P model predicts
-	PredMismatch int   `json:"pred_mismatch"`
-	Watchdog     int   `json:"watchdog"`
-	Events       int64 `json:"events"`
-	ConfLines    int64 `json:"conf_lines"`
+	Behaviours   int    `json:"behaviours"`
+	Steps        int    `json:"steps"`
+	Drift        int    `json:"drift"`
+	Unreproduced int    `json:"unreproduced"` // the pool handed out another node than the one-P model predicts
+	PredMismatch int    `json:"pred_mismatch"`
+	Watchdog     int    `json:"watchdog"`
+	Events       int64  `json:"events"`
+	ConfLines    int64  `json:"conf_lines"`
 	DriftAt      string `json:"drift_at,omitempty"`
 }
 
